@@ -346,7 +346,16 @@ func c19Gen(r *rand.Rand) *c19Prog {
 	p.Top = top.Name
 	var sb strings.Builder
 	sb.WriteString("filetype txt;\n\nstruct PT(\n    int a,\n    int b,\n)\n\nstruct XT(\n    bool on,\n    file h,\n    int  n,\n)\n\n")
-	for _, c := range p.Callables {
+	decl := p.Callables
+	if r.Intn(4) == 0 {
+		// callers declared before their callees (declaration order is free in MRO)
+		decl = nil
+		for i := len(p.Callables) - 1; i >= 0; i-- {
+			decl = append(decl, p.Callables[i])
+		}
+		p.Features["caller-declared-first"] = true
+	}
+	for _, c := range decl {
 		if c.Pipe {
 			fmt.Fprintf(&sb, "pipeline %s(\n", c.Name)
 		} else {
